@@ -210,6 +210,25 @@ func check(c Case) error {
 	}
 	for _, s := range c.Inputs {
 		r := []rune(s)
+		// the entry points that may run the capture-free program: an option's spelling must not matter there either
+		b0, e0 := vs[0].re.MatchString(s)
+		all0, e1 := vs[0].re.FindAllRunesIndex(r, -1)
+		if e0 == nil && e1 == nil {
+			for _, v := range vs[1:] {
+				b, err := v.re.MatchString(s)
+				if err == nil && b != b0 {
+					red := c
+					red.Inputs = []string{s}
+					return &failure{red, fmt.Sprintf("pattern %q O=%q input=%q: MatchString: %s gives %v, %s gives %v (text %q)", c.Pattern, c.O, s, vs[0].name, b0, v.name, b, v.re.String())}
+				}
+				all, err := v.re.FindAllRunesIndex(r, -1)
+				if err == nil && !reflect.DeepEqual(all, all0) {
+					red := c
+					red.Inputs = []string{s}
+					return &failure{red, fmt.Sprintf("pattern %q O=%q input=%q: FindAllRunesIndex: %s gives %v, %s gives %v (text %q)", c.Pattern, c.O, s, vs[0].name, all0, v.name, all, v.re.String())}
+				}
+			}
+		}
 		for at := 0; at <= len(r); at++ {
 			h.Eval()
 			m0, err := vs[0].re.FindRunesMatchStartingAt(r, at)
